@@ -89,9 +89,9 @@ CHECKS = {
                 'derivative (is_derive) w.r.t. any simulated measurement for any cell size. Tied to /repo on every run: '
                 'scores and gradient entries of the real filter classes (incl. ComposedPopulationFilter and sort_times '
                 'with non-involutive orders, missing values) certified by CoqInterval; padding / permutation / time '
-                're-ordering invariance checked directly. The log-normal filter gradient is proved as well (chain rule '
-                'through the Gaussian cell of the logarithms). PARTIAL: the is_derive theorems for the KDE and mixture '
-                'gradients are not proved (their formulas are tied numerically and searched with finite differences).',
+                're-ordering invariance checked directly. The gradients of all five filters are proved to be the derivatives '
+                '(log-normal ones by the chain rule through the cell of the logarithms; KDE ones through a bandwidth that '
+                'depends on every simulated value; the mixture one at block level).',
         'note': 'Trusted: Coq kernel, stdlib, Coquelicot, CoqInterval, ' + STD_AXIOMS + '; hand-written Model/Filters.v; the '
                 'harness maps chi\'s (individual, observable, time) arrays with NaNs and the time order onto cells; '
                 'two fix: commits (log-normal KDE Jacobian, docstring) precede this check.',
